@@ -590,3 +590,33 @@ pub fn local_cmd_key(c: &LocalSwarmCmd) -> Option<Vec<u8>> {
 fn cmd_name(dbg: &str) -> String {
     dbg.split(|c: char| !(c.is_alphanumeric() || c == ':' || c == '_')).next().unwrap_or("").rsplit("::").next().unwrap_or("").to_string()
 }
+
+impl Sim {
+    /// Spawn an async operation of the check, drive the simulator until it (and everything it
+    /// triggered) has settled, and return its output. None = did not finish (inconclusive).
+    pub fn run_op<F, T>(&mut self, f: F) -> Option<T>
+    where
+        F: std::future::Future<Output = T> + Send + 'static,
+        T: Send + 'static,
+    {
+        let h = self.rt.spawn(f);
+        let mut done = || h.is_finished();
+        let ok = self.settle(&mut done);
+        if !ok && !h.is_finished() {
+            h.abort();
+            return None;
+        }
+        self.rt.block_on(h).ok()
+    }
+
+    /// fill node i's routing table with `n` random peers (optionally only peers farther from the node than `min_d`)
+    pub fn add_rt_peers(&mut self, i: usize, peers: &[PeerId]) -> Vec<PeerId> {
+        let mut added = vec![];
+        for (j, p) in peers.iter().enumerate() {
+            if self.nodes[i].drv.verif_add_peer(*p, quic_addr(30_000 + (j as u16 % 20_000))) {
+                added.push(*p);
+            }
+        }
+        added
+    }
+}
